@@ -83,6 +83,10 @@ CLAIMED = {
         technique="finite-domain sign-table interpretation over the execute->vAMM->reply chain graph: side/direction helper tables, vAMM direction plumbing and event-attribute mapping extracted from MIR and composed for every assignment of acting side x position kind",
         note="Decided: R02.1 on every swap edge and assignment the engine's size change has the sign of the vAMM's net-position change and its operand is the base amount of that swap kind (known finding F8: partial liquidation through SwapInput); R02.2 positions are removed/zeroed only after a SwapOutput of size.value in the position's own direction, every swap reply path stores or removes the position; R02.3 attribute keys / type values parsed by the engine are those the vAMM emits, with requested vs priced amounts on the right keys. Not decided: assumes the stored invariant size>0 <=> direction==AddToAmm; failed transactions are covered by C08.",
         design="4/C02"),
+    "C07": dict(
+        technique="MIR cross-contract type agreement of every query edge (resolved generic arguments), chain-wide absence of gating facts, contradiction rule between the selection comparison and the partial reply's arithmetic, event-order rule for balance-sized top-ups, return-vs-queued agreement",
+        note="Liveness is not statically decidable; decided are necessary conditions: R07.1 all 15 in-repo query edges deserialise the type the target serialises (known finding F1: vAMM<-pricefeed GetPrice); R07.2 Liquidate chain not gated by pause, restriction mode or sender identity; R07.3 magnitude-based full/partial selection vs fallible unsigned margin arithmetic in the partial reply (known finding F2); R07.4 no balance-sized insurance top-up after an unreported outgoing vault transfer (known findings F3 x2); R07.5 amount reported as incoming equals the queued Withdraw; R07.6 strict already-outside band test. Not decided: that the swap can be filled, arithmetic overflow, insurance solvency.",
+        design="4/C07"),
 }
 
 NOT_BUILT = "rules designed in DESIGN.md section 4 but not built yet"
